@@ -19,7 +19,7 @@ pub static PROP: Prop = Prop {
         "encoder refusals and panics are counted, not failed here (they are C11's)",
     ],
     extra: super::no_extra,
-    fuzz_runs: 50000,
+    fuzz_runs: 200000,
 };
 
 pub fn check(c: &EncCase) -> Verdict {
